@@ -264,7 +264,9 @@ pub fn gen_doc(rng: &mut Rng, ts: &TileSet) -> Doc {
 		m.insert("data".into(), json!((0..rng.below(4)).map(|_| gen_string(rng)).collect::<Vec<_>>()));
 	}
 	if rng.chance(0.4) {
-		m.insert("fillzoom".into(), json!(rng.below(256)));
+		// byte values: the borders of the range as often as the inside
+		let v = if rng.bool() { *rng.pick(&[0u64, 255, 255, 1, 31, 32, 127, 128, 254]) } else { rng.below(256) };
+		m.insert("fillzoom".into(), json!(v));
 	}
 	let levels: Vec<u8> = ts.levels().into_iter().collect();
 	let (zmin, zmax) = (levels[0], *levels.last().unwrap());
@@ -515,8 +517,114 @@ fn tilejson_case(cx: &CaseCtx, rep: &mut Report, rng: &mut Rng, served: bool) {
 	let _ = esc("");
 }
 
+/// The PMTiles layout puts the metadata right behind the 16 KiB reserved for header + root directory:
+/// a document stored in containers whose root directory just fits (or just does not) must come back too.
+fn tilejson_pmtiles_boundary(cx: &CaseCtx, rep: &mut Report, rng: &mut Rng) {
+	use versatiles_container::{PMTilesReader, PMTilesWriter, TilesWriterTrait};
+	use versatiles_core::io::{DataReaderBlob, DataWriterBlob};
+	cx.progress("tilejson pmtiles root-directory boundary");
+	let z = 12u8;
+	let (x0, y0) = (rng.range(0, 3000) as u32, rng.range(0, 3000) as u32);
+	let mut all: Vec<(u32, u32)> = (0..240u32).flat_map(|dx| (0..240u32).map(move |dy| (x0 + dx, y0 + dy))).collect();
+	rng.shuffle(&mut all);
+	let payloads: Vec<Vec<u8>> = all.iter().take(9000).map(|(x, y)| {
+		let mut v = format!("T:{z}/{x}/{y};").into_bytes();
+		let n = rng.range(1, 400) as usize;
+		v.extend(rng.bytes(n));
+		v
+	}).collect();
+	let make = |n: usize| -> TileSet {
+		let tiles: BTreeMap<gen::Key, Vec<u8>> = (0..n).map(|i| ((z, all[i].0, all[i].1), payloads[i].clone())).collect();
+		TileSet { format: TileFormat::PNG, comp: Comp::None, tiles, tilejson: "{\"tilejson\":\"3.0.0\"}".into(), shape: format!("{n} scattered tiles at z12"), really_compressed: false }
+	};
+	let write = |ts: &TileSet, tj: Option<&TileJSON>| -> Result<Vec<u8>, String> {
+		let mut src = MemSource::new(ts);
+		if let Some(t) = tj {
+			src.tilejson = t.clone();
+		}
+		let mut w = DataWriterBlob::new().map_err(|e| e.to_string())?;
+		guard::block_on(PMTilesWriter::write_to_writer(&mut src, &mut w)).map_err(|e| format!("{e:#}"))?;
+		Ok(w.into_blob().into_vec())
+	};
+	let (mut lo, mut hi) = (500usize, 8000usize);
+	let mut steps = 0;
+	while hi - lo > 4 && steps < 20 {
+		steps += 1;
+		let mid = (lo + hi) / 2;
+		let leaf = write(&make(mid), None).ok().and_then(|b| crate::codec::ipm::parse_header(&b).ok()).map(|h| h.leaves.1 > 0).unwrap_or(true);
+		if leaf {
+			hi = mid;
+		} else {
+			lo = mid;
+		}
+	}
+	for n in (lo.saturating_sub(48)..=lo + 6).step_by(3) {
+		let ts = make(n);
+		let doc = gen_doc(rng, &ts);
+		let Ok(tj) = TileJSON::try_from(doc.text.as_str()) else { continue };
+		let witness = |extra: Value| json!({"container": "pmtiles", "tiles": n, "document": doc.text, "detail": extra});
+		let r = guard::catch(|| {
+			let bytes = write(&ts, Some(&tj))?;
+			let root = crate::codec::ipm::parse_header(&bytes).map(|h| h.root.1).unwrap_or(0);
+			let text = guard::block_on(async { PMTilesReader::open_reader(Box::new(DataReaderBlob::from(bytes))).await.map(|r| r.get_tilejson().as_string()) }).map_err(|e| format!("{e:#}"))?;
+			Ok::<(String, u64), String>((text, root))
+		});
+		rep.eval();
+		rep.count("tilejson_roundtrips_pmtiles_near_root_boundary", 1);
+		match r {
+			Err(p) => rep.violation(&p.signature("tilejson-container-pmtiles"), "writing / reading the container panicked", witness(json!({"panic": p.describe()}))),
+			Ok(Err(e)) => rep.violation("container|pmtiles|failed", "writing / reading the container failed", witness(json!({"error": e}))),
+			Ok(Ok((text, root))) => {
+				rep.max("pmtiles_root_directory_bytes", root);
+				match serde_json::from_str::<Value>(&text) {
+					Err(e) => rep.violation("container|pmtiles|returned-text-not-json", "the TileJSON handed back is not valid JSON", witness(json!({"text": text, "error": e.to_string()}))),
+					Ok(got) => compare_doc(rep, "container|pmtiles", &doc, &got, &ts, &[], &witness),
+				}
+			}
+		}
+	}
+}
+
+/// every byte value of the model's byte keys: the document parses, keeps the value and survives the
+/// blob route the container readers use (`try_from_blob_or_default` must not fall back to the default)
+fn tilejson_byte_sweep(cx: &CaseCtx, rep: &mut Report) {
+	cx.progress("tilejson byte values");
+	for key in ["fillzoom", "minzoom", "maxzoom"] {
+		for v in 0..=255u64 {
+			let text = format!("{{\"name\":\"n\",\"{key}\":{v},\"tilejson\":\"3.0.0\"}}");
+			rep.eval();
+			rep.count("tilejson_byte_values_checked", 1);
+			let r = guard::catch(|| {
+				let t = TileJSON::try_from(text.as_str()).map_err(|e| format!("rejected: {e:#}"))?;
+				let direct = t.as_string();
+				let via_blob = TileJSON::try_from_blob_or_default(&Blob::from(text.as_str())).as_string();
+				Ok::<(String, String), String>((direct, via_blob))
+			});
+			let w = json!({"document": text});
+			match r {
+				Err(p) => rep.violation(&p.signature("tilejson-parse"), "parsing a valid TileJSON document panicked", json!({"document": text, "panic": p.describe()})),
+				Ok(Err(e)) => rep.violation("tilejson|valid-document-rejected|byte-value", "a TileJSON document expressible by the model is rejected", json!({"document": text, "error": e})),
+				Ok(Ok((direct, via_blob))) => {
+					for (route, out) in [("parse", direct), ("blob", via_blob)] {
+						let got: Value = serde_json::from_str(&out).unwrap_or(Value::Null);
+						if got.get(key).and_then(|x| x.as_u64()) != Some(v) || got.get("name").and_then(|x| x.as_str()) != Some("n") {
+							rep.violation(&format!("tilejson|byte-value-lost|{route}"), "a byte value (or the document around it) does not survive parsing", json!({"document": w["document"], "returned": out}));
+						}
+					}
+				}
+			}
+		}
+	}
+}
+
 fn run_case(cx: &CaseCtx, rep: &mut Report) {
 	let mut rng = cx.rng();
+	if cx.case == 1 && !cx.tier.is_tiny() {
+		tilejson_pmtiles_boundary(cx, rep, &mut rng);
+	}
+	if cx.case == 4 || (cx.tier.is_tiny() && cx.case == 1) {
+		tilejson_byte_sweep(cx, rep);
+	}
 	match cx.case % 3 {
 		0 => json_case(cx, rep, &mut rng),
 		1 => tilejson_case(cx, rep, &mut rng, false),
